@@ -80,7 +80,7 @@ type C16Case struct {
 }
 
 var genShape = rapid.Custom(func(t *rapid.T) Shape {
-	return Shape{Base: stats.From(t, []string{"flusher", "flusherr", "both", "flusherr", "none"}, "base"), Depth: stats.From(t, []int{0, 0, 1, 2, 3}, "depth")}
+	return Shape{Base: stats.From(t, []string{"flusher", "flusherr", "both", "flusherr", "none"}, "base"), Depth: stats.From(t, []int{0, 0, 1, 2, 3}, "depth"), Uncomparable: stats.Pct(t, "uncomparable") >= 70}
 })
 
 func genC16(t *rapid.T) C16Case {
@@ -239,15 +239,16 @@ func TestC16(t *testing.T) {
 // ---------------------------------------------------------------------------------------
 
 type C16SrvCase struct {
-	Shape       Shape     `json:"shape"`
-	Headers     []stats.B `json:"headers"` // nil: header absent
-	HasHeader   bool      `json:"hasheader"`
-	OnSession   string    `json:"onsession"` // nil | accept | reject-silent | reject-status
-	Topics      []string  `json:"topics,omitempty"`
-	EmptySlice  bool      `json:"emptyslice,omitempty"` // no topics: OnSession returns []string{} instead of nil
-	ProvSend    int       `json:"provsend"`
-	ProvErr     string    `json:"proverr"` // none | before | after
-	CancelFirst bool      `json:"cancelfirst,omitempty"`
+	Shape           Shape     `json:"shape"`
+	Headers         []stats.B `json:"headers"` // nil: header absent
+	HasHeader       bool      `json:"hasheader"`
+	OnSession       string    `json:"onsession"` // nil | accept | reject-silent | reject-status
+	Topics          []string  `json:"topics,omitempty"`
+	EmptySlice      bool      `json:"emptyslice,omitempty"` // no topics: OnSession returns []string{} instead of nil
+	ProvSend        int       `json:"provsend"`
+	ProvErr         string    `json:"proverr"` // none | before | after
+	CancelFirst     bool      `json:"cancelfirst,omitempty"`
+	FirstFlushFails bool      `json:"firstflushfails,omitempty"` // the writer's very first flush fails (shapes that can report it)
 }
 
 func genC16Srv(t *rapid.T) C16SrvCase {
@@ -275,6 +276,7 @@ func genC16Srv(t *rapid.T) C16SrvCase {
 	}
 	c.ProvSend = stats.Pick(t, 4, "provsend")
 	c.ProvErr = stats.From(t, []string{"none", "none", "before", "after"}, "proverr")
+	c.FirstFlushFails = stats.Pct(t, "firstflushfails") >= 80
 	return c
 }
 
@@ -318,6 +320,9 @@ func (p *stubProvider) Shutdown(context.Context) error       { return nil }
 func checkC16Srv(t *testing.T, c C16SrvCase) *stats.Verdict {
 	v := &stats.Verdict{}
 	co := newCore(-1, 0, -1)
+	if c.FirstFlushFails && c.Shape.canFailFlush() {
+		co.failFlush = 0
+	}
 	w := c.Shape.build(co)
 	req := httptest.NewRequest(http.MethodGet, "/events", nil)
 	if c.HasHeader {
@@ -410,6 +415,21 @@ func checkC16Srv(t *testing.T, c C16SrvCase) *stats.Verdict {
 	}
 	if prov.sub.Client == nil {
 		return v.Failf("", "Subscription.Client is nil: %s", desc)
+	}
+	if c.FirstFlushFails && c.Shape.canFailFlush() && c.ProvErr != "before" && c.ProvSend > 0 {
+		// the provider's first Send fails at the upgrade flush and the provider returns that error:
+		// the subscription failed before anything was sent
+		v.Class("first-flush-fails")
+		if prov.sendErr == nil {
+			return v.Failf("", "the first flush failed but the provider's Send/Flush did not report it: %s", desc)
+		}
+		if co.body.Len() > 0 && !strings.Contains(co.body.String(), prov.sendErr.Error()) || strings.Contains(co.body.String(), "data: m") {
+			return v.Failf("", "event bytes were written although the upgrade flush failed: %s", desc)
+		}
+		if co.status != http.StatusInternalServerError {
+			return v.Failf("", "the subscription failed before anything was sent (first flush failed), status %d, want 500: %s", co.status, desc)
+		}
+		return v
 	}
 	switch c.ProvErr {
 	case "before":
